@@ -105,8 +105,52 @@ def keyword_adjacency():
         yield ('keyword', fn, tn), f % t
 
 
+RESERVED_WORDS = ['break', 'case', 'catch', 'continue', 'debugger', 'default', 'delete', 'do', 'else', 'finally', 'for',
+                  'function', 'if', 'in', 'instanceof', 'new', 'return', 'switch', 'this', 'throw', 'try', 'typeof', 'var',
+                  'void', 'while', 'with', 'class', 'enum', 'export', 'extends', 'import', 'super', 'null', 'true', 'false',
+                  'get', 'set']
+SEPARATORS = [('none', ''), ('blank', ' '), ('lf', '\n'), ('block', '/**/'), ('line', '//c\n'), ('multiline', '/*\n*/'),
+              ('ls', '\u2028')]
+
+
+def keyword_property_products():
+    """a reserved word as a property name: after '.', as an object key, as an accessor name - with every
+    kind of separator on either side, followed by what the keyword itself would change the reading of"""
+    for w in RESERVED_WORDS:
+        for (an, a), (bn, b) in itertools.product(SEPARATORS, SEPARATORS):
+            if an not in ('none', 'lf', 'line') and bn not in ('none', 'lf'):
+                continue
+            yield ('kwprop_div', w, an, bn), 'x = a.%s%s%s/ b / c;' % (a, w, b)
+            yield ('kwprop_call_div', w, an, bn), 'a.%s%s%s(b) / c / d;' % (a, w, b)
+            yield ('kwprop_continued', w, an, bn), 'x = a.%s%s%s\n+ b;' % (a, w, b)
+            yield ('kwprop_key', w, an, bn), 'x = {%s%s%s: 1, b: 2};' % (a, w, b)
+            if bn != 'none':
+                yield ('kwprop_getter', w, an, bn), 'x = {get%s%s%s() {}, set %s(v) {}};' % (b, w, a, w)
+            yield ('kwprop_postfix', w, an, bn), 'a.%s%s%s++\nb' % (a, w, b)
+
+
+def accessor_products():
+    names = ['a', '"s"', "'t'", '1', '.5', '0x1F', 'if', 'get', 'set', '$', 'é', '\\u0061', 'a1']
+    for kw in ('get', 'set'):
+        for (sn, sep), name in itertools.product(SEPARATORS, names):
+            if sn == 'none' and name[0] not in '"\'.':
+                continue
+            arg = 'v' if kw == 'set' else ''
+            yield ('accessor', kw, sn, name), 'x = {%s%s%s(%s) {}, k: 1};' % (kw, sep, name, arg)
+            yield ('accessor_plain', kw, sn, name), 'x = %s%s%s' % (kw, sep, 'in y' if name == 'a' else '+ 1')
+    for w in ('get1', 'set2', 'getter', 'get_', 'set$', 'gets', 'get\\u0061'):
+        yield ('accessor_like_name', w), 'x = {%s: %s}; %s++;' % (w, w, w)
+
+
 ALL = [binary_products, binary_products_parenthesised, unary_products, member_products, statement_products,
-       keyword_adjacency]
+       keyword_adjacency, keyword_property_products, accessor_products]
+LEXICAL = [keyword_property_products, accessor_products]
+
+
+def lexical_products():
+    for gen in LEXICAL:
+        for key, text in gen():
+            yield key, text
 
 
 def all_products():
